@@ -51,7 +51,7 @@ def project_views(instance):
     def mm():
         out = []
         for row in instance.machines_matrix:
-            out.append([[int(m) + 1 for m in x] if isinstance(x, (list, tuple)) else [int(x) + 1] for x in row])
+            out.append([[model.mid(m) for m in x] if isinstance(x, (list, tuple)) else [model.mid(x)] for x in row])
         return out
     put("machines_matrix", mm)
     put("machines_matrix_is_nested",
@@ -186,6 +186,8 @@ def c14():
         s = dsession.DSession(i + 1, b["inst"], [], ())
         v, raised = project_views(s.instance)
         s._ev({"a": "Views", "views": v, "raised": raised})
+        v, raised = project_views(s.instance)          # reading the views must not change them
+        s._ev({"a": "Views", "views": v, "raised": raised})
         roundtrip_events(s, rng)
         nonflex = not s.instance.is_flexible
         if nonflex and s.instance.num_operations <= 6:
@@ -313,6 +315,39 @@ def c15():
         if len(op0.machines) > 1:
             _eq_event(s, "scheduled_op", ScheduledOperation(op0, 0, m0), ScheduledOperation(op0, 0, op0.machines[1]),
                       [1, 1, m0 + 1, 0], [1, 1, op0.machines[1] + 1, 0])
+        # objects of DIFFERENT instances whose ids, times and chosen machines coincide:
+        # (i) the same operation with another set of admissible machines, scheduled on the common one
+        va, vb = json.loads(k), json.loads(k)
+        va[0][0]["ms"] = [va[0][0]["ms"][0], 8]
+        vb[0][0]["ms"] = [vb[0][0]["ms"][0], 9]
+        ia, ib = model.build_instance(va), model.build_instance(vb)
+        ma = va[0][0]["ms"][0] - 1
+        _eq_event(s, "scheduled_op", ScheduledOperation(ia.jobs[0][0], 0, ma), ScheduledOperation(ib.jobs[0][0], 0, ma),
+                  [va[0][0], 1, 1, ma + 1, 0], [vb[0][0], 1, 1, ma + 1, 0])
+        # (ii) the same operations grouped into jobs differently (a job split in two): same ids and durations
+        src = json.loads(k)
+        jl = [i for i, job in enumerate(src) if len(job) >= 2]
+        if jl:
+            j0 = jl[0]
+            split = src[:j0] + [src[j0][:1], src[j0][1:]] + src[j0 + 1:]
+            isplit = model.build_instance(split)
+            sch = []
+            for inst_x in (inst_a, isplit):
+                d = model.make_dispatcher(inst_x, [])
+                for job in inst_x.jobs:
+                    for op in job:
+                        d.dispatch(op, op.machines[0])
+                sch.append(d.schedule)
+            _eq_event(s, "schedule", sch[0], sch[1], [k, model.project_schedule(sch[0])],
+                      [json.dumps(split), model.project_schedule(sch[1])])
+            ea = [e for ms_ in sch[0].schedule for e in ms_]
+            eb = [e for ms_ in sch[1].schedule for e in ms_]
+            for x, y in zip(ea, eb):
+                cx = [x.operation.machines, x.operation.duration, x.operation.job_id, x.operation.position_in_job,
+                      x.operation.operation_id, x.start_time, x.machine_id]
+                cy = [y.operation.machines, y.operation.duration, y.operation.job_id, y.operation.position_in_job,
+                      y.operation.operation_id, y.start_time, y.machine_id]
+                _eq_event(s, "scheduled_op", x, y, cx, cy)
         traces.append(s.trace())
     chk.monitor(traces, source="equality-pairs", case_key=lambda t: json.dumps(t["inst"]))
     chk.notes["explanation"] = ("a pure relation: the specification contributes Content equality only; pairs come from "
